@@ -813,11 +813,17 @@ STATE_ACCESSORS = {
 
 O1_EXEMPT = {
     # one named exemption with reason
-    ("GroupBy.quantile", "attribute store result.index.names = ... [result.index.names]"):
+    ("GroupBy.quantile", "attribute store _.index.names = ... [_.index.names]"):
         "result.index is a new index object: quantile calls apply without transform, whose index is built by indexing "
         "the labels (Index.__getitem__ returns a new object) or by expand_index_to_new_level / set_levels; the "
         "transform path of apply, which shares the caller's index object, is not taken (path-insensitive join)",
 }
+
+
+def _anon_receiver(construct: str) -> str:
+    """the exemption is for the construct, whatever the local that holds the result is called"""
+    import re
+    return re.sub(r"\b[A-Za-z_][A-Za-z_0-9]*(?=\.index\.names)", "_", construct)
 
 
 def rule_O1(repo: Repo) -> RuleResult:
@@ -847,8 +853,8 @@ def rule_O1(repo: Repo) -> RuleResult:
             elif not bad:
                 res.ok(f, node, construct, f"writes parameter(s) {sorted(non_fresh(o))} of a private function: checked at its call sites",
                        nontrivial=False)
-            elif (f.qualname, construct) in O1_EXEMPT:
-                res.exempt(f, node, construct, O1_EXEMPT[(f.qualname, construct)])
+            elif (f.qualname, _anon_receiver(construct)) in O1_EXEMPT:
+                res.exempt(f, node, construct, O1_EXEMPT[(f.qualname, _anon_receiver(construct))])
             else:
                 what = ", ".join(sorted(("parameter " + b[2:]) if b.startswith("P:") else ("grouping state self." + b[2:]) for b in bad))
                 res.bad(f, node, construct,
